@@ -49,10 +49,10 @@ def register(claim):
     claim("C08", "proof",
           "Whole-table kernel evaluation (decide +kernel over all 6796 wires / 6240 crystals / all (layer,wire) and (part,theta,phi) tuples): density, "
           "documented order, both inverse directions, layer_start = cumulative counts, ring starts equal the documented ranges, digi route; "
-          "invalid-marker cases symbolically. Tables and kernels regenerated from the working tree and the docs on every run.",
+          "invalid-marker cases symbolically. Tables and kernels regenerated from the working tree and the docs on every run. The record parsers are translated from detectors/__init__.py on every run as compositions of the translated kernels (Gen/DetParse); Props/DetParseTie proves for all 64-bit inputs that the gid obtained by parsing a digi identifier is the gid of its decoded fields, whatever the wire-type flag, and that parsing the identifier built from any real wire / crystal returns its gid.",
           BV + TR + "documented EMC ring sizes (barrel 44x120 is not in the docs table; taken from the property text).",
           "Lean 4 kernel evaluation over complete finite tables (balanced allBlock + lifting lemma) on generated models; differential vs numba; "
-          "documentation-derived numbering oracle incl. scalar call paths; identifiers with the wire-type flag opposite to the geometry and with undefined bits set; buffers refilled in place between two calls", "DESIGN.md §6 C08, §5.2")
+          "documentation-derived numbering oracle incl. scalar call paths; identifiers with the wire-type flag opposite to the geometry and with undefined bits set; buffers refilled in place between two calls; AST translator for the record parsers + tie theorems", "DESIGN.md §6 C08, §5.2")
     claim("C10", "proof",
           "Index bound for every 32-bit word (symbolic), totality (invalid marker or own tag), injectivity on mapped entries (certificate-checked), "
           "MDC wire type = geometry stereo class, every wire / crystal has exactly one pre-image, field ranges, equality with the pinned reference - "
@@ -142,9 +142,9 @@ def register(claim):
           "Partial by design: Lean theorems for pybes3's own assembly laws (element-wise kernels preserve nesting and act on the leaves at every depth; the "
           "flat option commutes with the kernels; records are tuples of field kernels). The dispatch half - numba per-dtype kernels and awkward's ufunc "
           "protocol, which is most of what the property quantifies over - is explored: every public function x integer dtypes x container kinds (scalars, "
-          "0-d/n-d arrays, awkward flat/jagged/regular/depth-3/empty/sliced/indexed/masked/record field) x option combinations against a leaf-by-leaf reference.",
+          "0-d/n-d arrays, awkward flat/jagged/regular/depth-3/empty/sliced/indexed/masked/record field) x option combinations against a leaf-by-leaf reference. The record parsers are translated from the source on every run (Gen/DetParse): every output field is proved to be the stand-alone field function applied to the same input (Props/DetParseTie), the flat rule and the container switch are verified by the translator.",
           K + "numba type dispatch and awkward ufunc protocol are third-party and unmodelled; unknown-type (non-integer) empty arrays are not inputs of the property.",
-          "Lean 4 theorems for the assembly laws + structured per-dtype / per-layout exploration for the dispatch; missing values and depth-3 nesting through the record parsers; dtype history with kernels compiled after a table hand-out (child process, private cache)", "DESIGN.md §6 C14, §8")
+          "Lean 4 theorems for the assembly laws + structured per-dtype / per-layout exploration for the dispatch; missing values and depth-3 nesting through the record parsers; dtype history with kernels compiled after a table hand-out (child process, private cache); AST translator for the record parsers + tie theorems (these rest on C05 / C08 theorems and inherit their bv_decide certificate axioms)", "DESIGN.md §6 C14, §8")
     claim("C18", "other",
           "Partial by design: Lean theorem that the lazily announced type equals the eager type for digi collections (naturality of the shared post-"
           "processing w.r.t. the content-to-type map, for every field list incl. clashes) and that the matrix factory's form mirrors its content. "
